@@ -72,8 +72,8 @@ theorem ascendTo_same (base : Nat) : ∀ (fuel : Nat) (st st' : St S M),
         simp only [Option.bind_some] at h
         exact (ascend_same st st1 ha).trans (ih st1 st' h)
 
-theorem evaluate_anomaly (st st' : St S M) (h : evaluate G att st = some st') : st'.anomaly = st.anomaly := by
-  unfold evaluate at h
+theorem evaluate_anomaly (st st' : St S M) (h : PN.evaluate G att st = some st') : st'.anomaly = st.anomaly := by
+  unfold PN.evaluate at h
   split at h
   · injection h with h; subst h; rfl
   · split at h
